@@ -249,6 +249,23 @@ commonreal(struct expr **e1, struct expr **e2)
 
 	return t;
 }
+/*
+The size of the element type in pointer arithmetic: a constant, or, for a
+variable length array type, the size computed at run time.
+*/
+static struct expr *
+mkelemsize(struct type *t, struct type *rt)
+{
+	struct expr *e;
+
+	if (t->kind == TYPEARRAY && t->size == 0 && t->prop & PROPVM) {
+		e = mkexpr(EXPRSIZEOF, &typeulong, NULL);
+		e->u.szof.type = t;
+		return exprconvert(e, rt);
+	}
+	return mkconstexpr(rt, t->size);
+}
+
 
 static struct expr *
 mkbinaryexpr(struct location *loc, enum tokenkind op, struct expr *l, struct expr *r)
@@ -327,7 +344,7 @@ mkbinaryexpr(struct location *loc, enum tokenkind op, struct expr *l, struct exp
 		t = l->type;
 		if (t->base->incomplete || t->base->kind == TYPEFUNC)
 			error(loc, "pointer operand to '+' must be to complete object type");
-		r = mkbinaryexpr(loc, TMUL, exprconvert(r, &typeulong), mkconstexpr(&typeulong, t->base->size));
+		r = mkbinaryexpr(loc, TMUL, exprconvert(r, &typeulong), mkelemsize(t->base, &typeulong));
 		break;
 	case TSUB:
 		if (lp & PROPARITH && rp & PROPARITH) {
@@ -340,14 +357,14 @@ mkbinaryexpr(struct location *loc, enum tokenkind op, struct expr *l, struct exp
 			error(loc, "pointer operand to '-' must be to complete object type");
 		if (rp & PROPINT) {
 			t = l->type;
-			r = mkbinaryexpr(loc, TMUL, exprconvert(r, &typeulong), mkconstexpr(&typeulong, t->base->size));
+			r = mkbinaryexpr(loc, TMUL, exprconvert(r, &typeulong), mkelemsize(t->base, &typeulong));
 		} else {
 			if (!typecompatible(l->type->base, r->type->base))
 				error(&tok.loc, "pointer operands to '-' are to incompatible types");
 			op = TDIV;
 			t = &typelong;
 			e = mkbinaryexpr(loc, TSUB, exprconvert(l, &typelong), exprconvert(r, &typelong));
-			r = mkconstexpr(&typelong, l->type->base->size);
+			r = mkelemsize(l->type->base, &typelong);
 			l = e;
 		}
 		break;
